@@ -13,6 +13,215 @@ func init() {
 	vHarnesses["VH_C04_fate"] = VH_C04_fate
 	vHarnesses["VH_C04_coc"] = VH_C04_coc
 	vHarnesses["VH_C04_params"] = VH_C04_params
+	vHarnesses["VH_C04_wod"] = VH_C04_wod
+	vHarnesses["VH_C04_dc"] = VH_C04_dc
+}
+
+// vPoolRounds splits the detail skeleton " {#*,<#>},{#}" of a WoD / DC roll
+// into rounds of per-die marks; ok=false when the shape is not
+// "{die,die,...},{...}" with die one of # #* <#> <#*>.
+func vPoolRounds(skel string) (rounds [][]string, ok bool) {
+	if skel == "" {
+		return nil, true
+	}
+	if !strings.HasPrefix(skel, " {") || !strings.HasSuffix(skel, "}") {
+		return nil, false
+	}
+	for _, r := range strings.Split(skel[2:len(skel)-1], "},{") {
+		dice := strings.Split(r, ",")
+		for _, d := range dice {
+			switch d {
+			case "#", "#*", "<#>", "<#*>":
+			default:
+				return nil, false
+			}
+		}
+		rounds = append(rounds, dice)
+	}
+	return rounds, true
+}
+
+//vh:prop=C04 tiers=quick,thorough solver=z3-new/int summaries=Roll:roll-contract unwind=16 unwind_ok=1 quick:P.maxPool=3 quick:P.maxDice=6 thorough:P.maxPool=4 thorough:P.maxDice=9 bounds="RollWoD: pool in 1..maxPool (3 quick, 4 thorough) by case split, at most maxDice dice in all rounds together (6 quick, 9 thorough; longer explosions are outside the claim); sides and success threshold 64-bit symbols in [1,2^40], add-line 0 or a 64-bit symbol >= 2, comparison direction a symbolic boolean; each die is Roll's contract (C05)"
+func VH_C04_wod() {
+	src := &rand.PCGSource{}
+	pool := 1 + vChoice("pool", vParam("maxPool", 2))
+	vMaxDraws(vParam("maxDice", 5))
+	points := vInt64("points")
+	vAssume(points >= 1)
+	vAssume(points <= 1<<40)
+	threshold := vInt64("threshold")
+	vAssume(threshold >= 1)
+	vAssume(threshold <= 1<<40)
+	addLine := int64(0)
+	if vBool("explodes") {
+		addLine = vInt64("addline")
+		vAssume(addLine >= 2)
+		vAssume(addLine <= 1<<40)
+	}
+	isGE := vBool("ge")
+
+	succ, total, nrounds, text := RollWoD(src, IntType(addLine), IntType(pool), IntType(points), IntType(threshold), isGE, 0)
+	vReach("rolled")
+	vObserve("succ", succ)
+	vObserve("total", total)
+	vObserve("rounds", nrounds)
+	vObserve("text", text)
+
+	n := vDrawCount()
+	vAssert(vDrawsFrom(src) == n, "draws-from-given-source")
+	vAssert(int64(total) == int64(n), "total-dice-count-equals-dice-rolled")
+	// the rule, from the dice as rolled
+	wantSucc, wantRounds := int64(0), 0
+	var marks [][]string
+	k, size := 0, pool
+	for size > 0 {
+		wantRounds++
+		add := 0
+		var round []string
+		for i := 0; i < size; i++ {
+			d := int64(vDraw(k)) + 1
+			k++
+			vAssert(vAnd(d >= 1, d <= points), "die-in-face-range")
+			m := "#"
+			var ok bool
+			if isGE {
+				ok = d >= threshold
+			} else {
+				ok = d <= threshold
+			}
+			if ok {
+				wantSucc++
+				m += "*"
+			}
+			if addLine != 0 && d >= addLine {
+				add++
+				m = "<" + m + ">"
+			}
+			round = append(round, m)
+		}
+		marks = append(marks, round)
+		size = add
+	}
+	vAssert(k == n, "number-of-dice-follows-the-exploding-rule")
+	vAssert(int64(succ) == wantSucc, "success-count-is-what-the-dice-imply")
+	vAssert(int(nrounds) == wantRounds, "round-count-follows-the-rule")
+
+	// the text: "成功S/N[ 轮数:R] {..},{..}"
+	shown := vStrInts(text)
+	skel := vStrSkel(text)
+	head := "成功#/#"
+	if wantRounds > 1 {
+		head += " 轮数:#"
+	}
+	vAssert(strings.HasPrefix(skel, head), "detail-shape")
+	hn := strings.Count(head, "#")
+	vAssert(shown[0] == int64(succ), "text-shows-the-success-count")
+	vAssert(shown[1] == int64(total), "text-shows-the-dice-count")
+	if wantRounds > 1 {
+		vAssert(shown[2] == int64(wantRounds), "text-shows-the-round-count")
+	}
+	rounds, ok := vPoolRounds(skel[len(head):])
+	vAssert(ok, "detail-shape")
+	vAssert(len(rounds) == wantRounds, "one-group-per-round")
+	k = 0
+	for r := range rounds {
+		vAssert(len(rounds[r]) == len(marks[r]), "number-of-dice-shown-matches-the-rule")
+		for i := range rounds[r] {
+			vAssert(rounds[r][i] == marks[r][i], "success/explode-marks-match-the-die")
+			vAssert(shown[hn+k] == int64(vDraw(k))+1, "shown-dice-are-the-rolled-dice")
+			k++
+		}
+	}
+}
+
+//vh:prop=C04 tiers=quick,thorough solver=z3-new/int summaries=Roll:roll-contract unwind=16 unwind_ok=1 quick:P.maxPool=3 quick:P.maxDice=6 thorough:P.maxPool=4 thorough:P.maxDice=9 bounds="RollDoubleCross: pool in 1..maxPool (3 quick, 4 thorough) by case split, at most maxDice dice in all rounds together (6 quick, 9 thorough); sides 64-bit symbol in [1,2^40], critical line 64-bit symbol in [2,11] or above the sides (the rule -a round with a critical die scores 10- says nothing sensible when a non-critical die can exceed 10, so 11 < line <= sides is outside the claim); each die is Roll's contract (C05)"
+func VH_C04_dc() {
+	src := &rand.PCGSource{}
+	pool := 1 + vChoice("pool", vParam("maxPool", 2))
+	vMaxDraws(vParam("maxDice", 5))
+	points := vInt64("points")
+	vAssume(points >= 1)
+	vAssume(points <= 1<<40)
+	addLine := vInt64("addline")
+	vAssume(addLine >= 2)
+	vAssume(addLine <= 1<<40)
+	vAssume(vOr(addLine <= 11, addLine > points))
+
+	res, total, nrounds, text := RollDoubleCross(src, IntType(addLine), IntType(pool), IntType(points), 0)
+	vReach("rolled")
+	vObserve("res", res)
+	vObserve("total", total)
+	vObserve("rounds", nrounds)
+	vObserve("text", text)
+
+	n := vDrawCount()
+	vAssert(vDrawsFrom(src) == n, "draws-from-given-source")
+	vAssert(int64(total) == int64(n), "total-dice-count-equals-dice-rolled")
+	// the rule: every round with a critical die scores 10 and re-rolls the
+	// critical dice; the last round scores its highest die
+	want, wantRounds := int64(0), 0
+	var marks [][]string
+	k, size := 0, pool
+	for size > 0 {
+		wantRounds++
+		add := 0
+		best := int64(0)
+		var round []string
+		for i := 0; i < size; i++ {
+			d := int64(vDraw(k)) + 1
+			k++
+			vAssert(vAnd(d >= 1, d <= points), "die-in-face-range")
+			best = vIteInt64(d > best, d, best)
+			if d >= addLine {
+				add++
+				round = append(round, "<#>")
+			} else {
+				round = append(round, "#")
+			}
+		}
+		if add > 0 {
+			want += 10
+		} else {
+			want += best
+		}
+		marks = append(marks, round)
+		size = add
+	}
+	vAssert(k == n, "number-of-dice-follows-the-exploding-rule")
+	vAssert(int64(res) == want, "result-is-what-the-dice-imply")
+	vAssert(int(nrounds) == wantRounds, "round-count-follows-the-rule")
+
+	shown := vStrInts(text)
+	skel := vStrSkel(text)
+	head := "出目#/#"
+	if strings.HasPrefix(skel, "大失败 ") {
+		vAssert(int64(res) == 1, "fumble-only-when-result-is-1")
+		skel = skel[len("大失败 "):]
+	} else {
+		vAssert(int64(res) != 1, "fumble-shown-when-result-is-1")
+	}
+	if wantRounds > 1 {
+		head += " 轮数:#"
+	}
+	vAssert(strings.HasPrefix(skel, head), "detail-shape")
+	hn := strings.Count(head, "#")
+	vAssert(shown[0] == int64(res), "text-shows-the-result")
+	vAssert(shown[1] == int64(total), "text-shows-the-dice-count")
+	if wantRounds > 1 {
+		vAssert(shown[2] == int64(wantRounds), "text-shows-the-round-count")
+	}
+	rounds, ok := vPoolRounds(skel[len(head):])
+	vAssert(ok, "detail-shape")
+	vAssert(len(rounds) == wantRounds, "one-group-per-round")
+	k = 0
+	for r := range rounds {
+		vAssert(len(rounds[r]) == len(marks[r]), "number-of-dice-shown-matches-the-rule")
+		for i := range rounds[r] {
+			vAssert(rounds[r][i] == marks[r][i], "critical-marks-match-the-die")
+			vAssert(shown[hn+k] == int64(vDraw(k))+1, "shown-dice-are-the-rolled-dice")
+			k++
+		}
+	}
 }
 
 // vCountEq returns how many elements of xs equal v (as a symbolic sum).
